@@ -458,6 +458,16 @@ def check(pid, tier, seed):
                                          "implementation": a, "model_or_spec": m, "stream": c.tag})
             if c.kind == "self" and not a.startswith(("RUNNER-ERROR", "UNKNOWN-FUNCTION")):
                 continue       # a call that is only compared with itself in other circumstances (order, -OO, threads, schedules)
+            if a.startswith("RUNNER-ERROR") and c.kind == "prop" and not m.startswith(("DRIVER-ERROR", "UNKNOWN-FUNCTION")):
+                # the library raised something the oracle function did not expect at all (e.g. RecursionError from a comparison)
+                rec = {"property": pid, "kind": "input", "stream": c.tag, "check": "prop", "call": c.fn, "args": c.args,
+                       "args_shown": [props.show_arg(x) for x in c.args],
+                       "observed_implementation": a.replace("RUNNER-ERROR", "the library raised, inside the oracle:"),
+                       "expected_by_spec": m, "seed": seed}
+                if (c.fn, a[:60]) not in seen_v or len(violations) < 5:
+                    violations.append(rec)
+                seen_v.add((c.fn, a[:60]))
+                continue
             if a.startswith(("RUNNER-ERROR", "UNKNOWN-FUNCTION")) or m.startswith(("DRIVER-ERROR", "UNKNOWN-FUNCTION")):
                 broken.append({"what": "harness", "detail": f"{c.fn}: impl={a} model={m}"})
                 continue
